@@ -98,6 +98,7 @@ type iJob[T any] interface {
 	Job[T]
 	StatusProvider
 	changeStatus(s status)
+	startProcessing() bool
 	setAckId(id string)
 	setInternalQueue(q IBaseQueue)
 	ack() error
@@ -176,6 +177,42 @@ func (j *job[T]) changeStatus(s status) {
 	j.status.Store(s)
 }
 
+// startProcessing moves the job to processing unless it has been closed
+// (cancelled) in the meantime. The decision is taken by the compare-and-swap,
+// so a job is never both cancelled and started.
+func (j *job[T]) startProcessing() bool {
+	for {
+		s := j.status.Load()
+
+		if s == closed {
+			return false
+		}
+
+		if j.status.CompareAndSwap(s, processing) {
+			return true
+		}
+	}
+}
+
+// closeStatus moves the job to closed unless it is processing or already
+// closed. Exactly one of several concurrent callers succeeds.
+func (j *job[T]) closeStatus() error {
+	for {
+		s := j.status.Load()
+
+		switch s {
+		case processing:
+			return ErrJobProcessing
+		case closed:
+			return ErrJobAlreadyClosed
+		}
+
+		if j.status.CompareAndSwap(s, closed) {
+			return nil
+		}
+	}
+}
+
 func (j *job[T]) Wait() {
 	j.wg.Wait()
 }
@@ -241,7 +278,11 @@ func (j *job[T]) Close() error {
 		return err
 	}
 
-	j.status.Store(closed)
+	// only the caller that wins the transition releases the waiters
+	if err := j.closeStatus(); err != nil {
+		return err
+	}
+
 	j.wg.Done()
 
 	return nil
